@@ -21,6 +21,7 @@ class HyteraIPSC:
     DEFAULT_RESERVED_2A: bytes = b"\x40\x00"
     DEFAULT_RESERVED_2B: bytes = b"\xe2\x08"
     DEFAULT_RESERVED_1: bytes = b"\x00"
+    DEFAULT_PAYLOAD_PADDING: bytes = b"\x00"
 
     def __init__(
         self,
@@ -57,6 +58,8 @@ class HyteraIPSC:
         self.reserved_2a: bytes = HyteraIPSC.DEFAULT_RESERVED_2A
         self.reserved_2b: bytes = HyteraIPSC.DEFAULT_RESERVED_2B
         self.reserved_1: bytes = HyteraIPSC.DEFAULT_RESERVED_1
+        # 34th byte of IPSC payload, not part of 33 bytes DMR burst
+        self.payload_padding: bytes = HyteraIPSC.DEFAULT_PAYLOAD_PADDING
 
     def __repr__(self) -> str:
         return (
@@ -78,6 +81,8 @@ class HyteraIPSC:
 
     @staticmethod
     def from_ipsc_bytes(ipsc: bytes) -> "HyteraIPSC":
+        # keep the 34th payload byte, it is cut off from the 33 bytes burst below
+        payload_padding = byteswap_bytes(ipsc[26:60])[-1:]
         first_header = ipsc[0:2]
         second_header = ipsc[2:4]
         sequence_number = int.from_bytes(ipsc[4:5])
@@ -116,6 +121,7 @@ class HyteraIPSC:
         ipsc.reserved_2a = reserved_2a
         ipsc.reserved_2b = reserved_2b
         ipsc.reserved_1 = reserved_1
+        ipsc.payload_padding = payload_padding
         return ipsc
 
     @staticmethod
@@ -145,6 +151,7 @@ class HyteraIPSC:
         _ipsc.reserved_2b = ipsc.reserved_2b
         # kaitai reads the last byte as u1 (int)
         _ipsc.reserved_1 = bytes([ipsc.reserved_1b])
+        _ipsc.payload_padding = byteswap_bytes(ipsc.ipsc_payload)[-1:]
 
         return _ipsc
 
@@ -168,7 +175,7 @@ class HyteraIPSC:
                     if isinstance(self.payload, bytes)
                     else self.payload.as_bytes()
                 )[0:33]
-                + b"\x00"
+                + self.payload_padding[0:1]
             )
             + self.reserved_2b[0:2]
             + self.call_type.value.to_bytes(1, byteorder="little")
